@@ -249,6 +249,20 @@ def entry_runs():
     return out
 
 
+def _serial_zhit(name):
+    ensure_repo_on_path()
+    return zhit_result(spectra()[name], num_procs=1)
+
+
+def _replay_zhit_pair(job):
+    ensure_repo_on_path()
+    name, order, done = job
+    with patched_pools([list(order), list(done)]):
+        got = zhit_result(spectra()[name], num_procs=2)
+        used = ControlledPool.created
+    return got, used
+
+
 def selftest() -> int:
     ensure_repo_on_path()
     res = run_tlc("FanOut", cfg_text(4, 2, 2, True, False, ["WinnerIndependent"]))
@@ -294,23 +308,25 @@ def run(tier: str, seed: int) -> int:
     pairs = sorted(pairs)
     rng = random.Random(seed)
     if tier == "quick":
-        pairs = rng.sample(pairs, min(len(pairs), 10))
+        pairs = rng.sample(pairs, min(len(pairs), 40))
     v.extra["schedules"] = len(pairs)
     sp = spectra()
-    for name, d in sp.items():
-        serial = zhit_result(d, num_procs=1)
-        for order, done in pairs:
-            with patched_pools([list(order), list(done)]):
-                got = zhit_result(d, num_procs=2)
-                used = ControlledPool.created
-            if used < 2:
-                raise MachineryError(f"perform_zhit created {used} pools; the substitution does not control its fan-out")
-            v.replayed += 1
-            if got != serial:
-                what = "label" if got[3:] == serial[3:] else "numbers"
-                v.report(f"zhit:schedule-dependent-{what}", {"spectrum": name, "stage1_order": order, "stage2_order": done, "serial": serial, "got": got},
-                         f"perform_zhit on {name}: serial {serial[:4]} but {got[:4]} when results arrive as {order}/{done}")
-        v.sample({"spectrum": name, "serial": serial[:4], "schedules": len(pairs)})
+    from concurrent.futures import ProcessPoolExecutor
+    jobs = [(name, order, done) for name in sp for order, done in pairs]
+    with ProcessPoolExecutor(max_workers=14) as ex:
+        serials = dict(zip(sp, ex.map(_serial_zhit, list(sp))))
+        results = list(ex.map(_replay_zhit_pair, jobs, chunksize=4))
+    for (name, order, done), (got, used) in zip(jobs, results):
+        serial = serials[name]
+        if used < 2:
+            raise MachineryError(f"perform_zhit created {used} pools; the substitution does not control its fan-out")
+        v.replayed += 1
+        if got != serial:
+            what = "label" if got[3:] == serial[3:] else "numbers"
+            v.report(f"zhit:schedule-dependent-{what}", {"spectrum": name, "stage1_order": order, "stage2_order": done, "serial": serial, "got": got},
+                     f"perform_zhit on {name}: serial {serial[:4]} but {got[:4]} when results arrive as {order}/{done}")
+    for name in sp:
+        v.sample({"spectrum": name, "serial": serials[name][:4], "schedules": len(pairs)})
     # 2b. the same schedules on fit_circuit with exactly tying candidates (a resistor fitted to a resistive spectrum:
     #     several weights give bit-identical results); ordered collection must make the schedule irrelevant
     import warnings
